@@ -1,5 +1,6 @@
-"""Regenerate /verif/MANIFEST.json from bsv/tools/manifest_table.py and validate it."""
+"""Regenerate /verif/MANIFEST.json from bsv/tools/manifest_table.py and the property modules; validate it."""
 
+import importlib
 import json
 import os
 import sys
@@ -8,7 +9,11 @@ HERE = os.path.dirname(os.path.abspath(__file__))
 VERIF = os.path.dirname(os.path.dirname(HERE))
 sys.path.insert(0, VERIF)
 
-from bsv.tools.manifest_table import CHECKS, NOT_APPLICABLE  # noqa: E402
+from bsv import env  # noqa: E402
+
+env.setup()
+
+from bsv.tools.manifest_table import ENGINE, NOT_APPLICABLE  # noqa: E402
 
 PY = "/venv/bin/python"
 
@@ -16,10 +21,15 @@ PY = "/venv/bin/python"
 def main():
     props = [json.loads(line)["id"] for line in open(os.path.join(VERIF, "properties.jsonl"))]
     checks = []
+    claimed = []
     for pid in props:
-        if pid not in CHECKS:
+        if pid not in ENGINE or pid in NOT_APPLICABLE or not os.path.exists(os.path.join(VERIF, "bsv", "props", f"{pid}.py")):
             continue
-        c = CHECKS[pid]
+        engine, technique, note = ENGINE[pid]
+        mod = importlib.import_module(f"bsv.props.{pid}")
+        text = " ".join(str(mod.RULE).split())
+        assumptions = "; ".join(getattr(mod, "ASSUMPTIONS", [])[-3:])
+        claimed.append(pid)
         checks.append(
             {
                 "property_id": pid,
@@ -27,32 +37,31 @@ def main():
                 "thorough_cmd": f"{PY} -m bsv.check {pid} --tier thorough",
                 "evidence_file": f"/verif/evidence/{pid}.json",
                 "replay_cmd_template": f"{PY} -m bsv.check {pid} --replay {{path}}",
-                "engine": c["engine"],
-                "level_claimed": {"category": "model_checking", "text": c["text"], "design_ref": c.get("design_ref", "DESIGN.md section 4")},
-                "level_note": c["note"],
-                "technique": c["technique"],
+                "engine": engine,
+                "level_claimed": {"category": "model_checking", "text": text, "design_ref": f"DESIGN.md section 4 ({pid}), section 2 ({engine})"},
+                "level_note": (note + (" Check-specific: " + assumptions if assumptions else ""))[:1500],
+                "technique": technique,
             }
         )
-    na = [{"property_id": pid, "reason": NOT_APPLICABLE.get(pid, "check not built yet in this session; no claim is made")} for pid in props if pid not in CHECKS]
+    na = [{"property_id": pid, "reason": NOT_APPLICABLE.get(pid, "check not built; no claim is made")} for pid in props if pid not in claimed]
     manifest = {
         "version": 1,
         "setup_cmd": f"cd /verif && {PY} -m compileall -q bsv && {PY} -m bsv.selfcheck",
         "hooks": {
             "guard": "BLUESKY_VERIF",
-            "enable": "no source hooks: the harness rebinds module globals of bluesky in its own process (bsv/harness/core.py install_shims); BLUESKY_VERIF=1 is exported by the checks but nothing in /repo reads it",
+            "enable": "no source hooks: the harness rebinds module globals of bluesky in its own process (bsv/harness/core.py install_shims; bsv/props/C42.py binds a recording tracer); BLUESKY_VERIF=1 is exported by the checks but nothing in /repo reads it",
             "baseline_off_cmd": "cd /repo && /venv/bin/python -m pytest -ra -q -p no:cacheprovider --timeout=900 --continue-on-collection-errors",
             "source_commits": [],
             "add_only": True,
         },
         "engines": [
-            {"name": "H+X1", "path": "bsv/harness, bsv/explore/bounded.py", "kind_free_text": "stateless deviation-bounded schedule/fault exploration of the real RunEngine on a hand-stepped asyncio loop", "serves_properties": [p for p, c in CHECKS.items() if c["engine"] == "X1"]},
-            {"name": "X2", "path": "bsv/explore/statespace.py", "kind_free_text": "explicit-state BFS over the real RunEngine (state = action history, canonical hash of live engine state)", "serves_properties": [p for p, c in CHECKS.items() if "X2" in c["engine"]]},
-            {"name": "G", "path": "bsv/explore/genproto.py", "kind_free_text": "exhaustive generator-protocol exploration: all small plan programs x all send/throw/close driver scripts, differential against reference generators", "serves_properties": [p for p, c in CHECKS.items() if c["engine"] == "G"]},
-            {"name": "S", "path": "bsv/explore/enum.py", "kind_free_text": "bounded exhaustive enumeration of inputs / operation histories on the real objects against a reference model", "serves_properties": [p for p, c in CHECKS.items() if c["engine"] == "S"]},
+            {"name": "X1", "path": "bsv/harness, bsv/explore/bounded.py, bsv/props/_x1.py", "kind_free_text": "stateless deviation-bounded schedule/fault exploration of the real RunEngine on a hand-stepped asyncio loop", "serves_properties": [p for p in claimed if ENGINE[p][0] == "X1"]},
+            {"name": "G", "path": "bsv/explore/genproto.py", "kind_free_text": "exhaustive generator-protocol exploration: all small plan programs x all send/throw/close driver scripts, differential against reference generators", "serves_properties": [p for p in claimed if ENGINE[p][0] == "G"]},
+            {"name": "S", "path": "bsv/props/Cxx.py (self-contained), bsv/explore/responder.py", "kind_free_text": "bounded exhaustive enumeration of inputs / operation histories on the real objects against a reference model", "serves_properties": [p for p in claimed if ENGINE[p][0] == "S"]},
         ],
         "checks": checks,
         "not_applicable": na,
-        "notes": "All checks: cwd=/verif, import bluesky from /repo/src (working tree), PYTHONHASHSEED=0 re-exec, evidence rewritten on every run. Known findings: /verif/known_findings.json.",
+        "notes": "All checks: cwd=/verif, import bluesky from /repo/src (working tree), PYTHONHASHSEED=0 re-exec, evidence rewritten on every run, exit 3 = harness error (never a violation). Known findings: /verif/known_findings.json ('known' entries print KNOWN-FINDING, 'fixed' entries suppress nothing).",
     }
     path = os.path.join(VERIF, "MANIFEST.json")
     with open(path, "w") as f:
